@@ -16,13 +16,14 @@ PY = os.path.join(common.VERIF, ".venv", "bin", "python")
 
 class Cond:
     """One CrossHair condition to discharge."""
-    def __init__(self, module, func, timeout, part=None, label=None, ladder=None):
+    def __init__(self, module, func, timeout, part=None, label=None, ladder=None, affix=None):
         self.module = module          # e.g. "harness.h_c18"
         self.func = func
         self.timeout = timeout        # per_condition_timeout (CPU seconds inside CrossHair)
         self.part = part              # value for VERIF_PART (pins leading operands inside the harness), or None
         self.label = label or (func + ("[%s]" % part if part is not None else ""))
         self.ladder = ladder          # optional list of VERIF_BOUND values to step down through on timeout
+        self.affix = affix            # index into hlib.AFFIXES: concrete text placed around the symbolic string
 
 
 def _def_line(path, func):
@@ -45,6 +46,8 @@ def _run_one(cond, bound=None):
         env["VERIF_PART"] = str(cond.part)
     if bound is not None:
         env["VERIF_BOUND"] = str(bound)
+    if cond.affix is not None:
+        env["VERIF_AFFIX"] = str(cond.affix)
     cmd = [PY, "-m", "crosshair", "check", "--analysis_kind=PEP316", "--report_all",
            "--per_condition_timeout", str(cond.timeout), "%s:%d" % (path, line)]
     t0 = time.time()
@@ -56,7 +59,7 @@ def _run_one(cond, bound=None):
         out += "\nWALL-TIMEOUT"
     dt = time.time() - t0
     verdict, detail = parse(out)
-    return {"label": cond.label, "module": cond.module, "func": cond.func, "part": cond.part, "bound": bound,
+    return {"label": cond.label, "module": cond.module, "func": cond.func, "part": cond.part, "bound": bound, "affix": cond.affix,
             "verdict": verdict, "detail": detail, "seconds": round(dt, 1), "raw": out[-1500:]}
 
 
@@ -107,10 +110,13 @@ def extract_call(detail, func):
     return None
 
 
-def replay_call(module, call_src, part=None, bound=None):
+def replay_call(module, call_src, part=None, bound=None, affix=None):
     """Run the harness natively on the counterexample's arguments. Returns (reproduced, message)."""
-    old = {k: os.environ.get(k) for k in ("VERIF_PART", "VERIF_BOUND")}
+    old = {k: os.environ.get(k) for k in ("VERIF_PART", "VERIF_BOUND", "VERIF_AFFIX")}
     try:
+        os.environ.pop("VERIF_AFFIX", None)
+        if affix is not None:
+            os.environ["VERIF_AFFIX"] = str(affix)
         if part is not None:
             os.environ["VERIF_PART"] = str(part)
         if bound is not None:
@@ -160,13 +166,13 @@ def discharge(conds, rep, prop, nproc=None):
                 if call is None:
                     rep.mismatch.append("%s: cannot parse counterexample: %s" % (r["label"], r["detail"][:200]))
                     continue
-                ok, msg = replay_call(c.module, call, c.part, r["bound"])
+                ok, msg = replay_call(c.module, call, c.part, r["bound"], c.affix)
                 r["replayed"] = ok
                 if ok and "HARNESS-LIMIT" in msg:
                     rep.inconclusive.append("%s: %s" % (r["label"], msg[:300]))
                 elif ok:
                     rep.violation({"harness": c.func, "call": call, "part": c.part}, msg,
-                                  {"harness": "crosshair", "module": c.module, "call": call, "part": c.part, "bound": r["bound"]})
+                                  {"harness": "crosshair", "module": c.module, "call": call, "part": c.part, "bound": r["bound"], "affix": c.affix})
                 else:
                     rep.mismatch.append("%s: CrossHair counterexample does not reproduce natively: %s" % (r["label"], msg[:200]))
             else:
@@ -178,5 +184,5 @@ def discharge(conds, rep, prop, nproc=None):
 
 
 def generic_replay(payload):
-    ok, msg = replay_call(payload["module"], payload["call"], payload.get("part"), payload.get("bound"))
+    ok, msg = replay_call(payload["module"], payload["call"], payload.get("part"), payload.get("bound"), payload.get("affix"))
     return ok, msg
